@@ -12,7 +12,7 @@ from ..model import norm_text, AnalysisError
 from ..units import exc_key
 from .. import seqops
 from . import vbs, common
-from .vbs import ReaderRuns, reader_reads, same_seq, MLIB, STOP, VNEXT, unpacked_length, max_len, length_codecs, packed_u32_value
+from .vbs import read_request as _read_request, ReaderRuns, reader_reads, same_seq, MLIB, STOP, VNEXT, unpacked_length, max_len, length_codecs, packed_u32_value
 
 WRITE = 'mciipm.VbsWriter.write'
 CLOSE = 'mciipm.VbsWriter.close'
@@ -333,7 +333,7 @@ def check(prog, res, tier):
             return it.call_function(fi, [arg], {'blocked': bl})
         runs_k = Runs(prog, entry_k, summaries=io_summaries(prog), res=res)
 
-        def chk_k(p, mode, target=target):
+        def chk_k(p, mode, target=target, fi=fi):
             if p.outcome == 'loopback':
                 return []
             c = ctor_of(p.interp, target)
@@ -344,6 +344,10 @@ def check(prog, res, tier):
             if got is None and isinstance(b.get('**'), DictV):
                 got = b['**'].items.get('blocked')
             if got is not p.interp.user['bl']:
+                if ('truth', 'blocked_option') in p.interp.binds:
+                    # the function looks at the option itself (and may do the blocking on its own): a different design
+                    return [soft(f'{fi.name} tests the blocked option itself and constructs {target} with blocked={got!r}: what it does '
+                                 f'instead is outside the model of this rule')]
                 return [definite(f'{target} is constructed without the caller\'s options (blocked=... is lost)')]
             return []
         res.add(runs_k.judge('C03.e', f'{fi.name} passes its keyword options through to {target}', func_where(fi),
@@ -382,16 +386,3 @@ def check(prog, res, tier):
         res.add(runs_k0.judge('C03.e', f'{fi.name} without options works unblocked on a fresh in-memory file', func_where(fi),
                               f'{target}(io.BytesIO(...))', chk_k0, rule=f'C03.e.{fi.name}.default', unknown_ok=benign_unknown))
 
-
-def _read_request(p, ev):
-    """size requested by the read event (direct read or Unblock1014.read call)."""
-    if ev.kind == 'read':
-        return Lin.of(ev.data['size']) if ev.data['size'] is not None else None
-    # leave event of Unblock1014.read: find matching enter
-    for e in reversed(p.events):
-        if e.seq < ev.seq and e.kind == 'enter' and e.data['callee'] == 'mciipm.Unblock1014.read':
-            a = e.data['args']
-            if a and isinstance(a[0], IntV):
-                return a[0].lin
-            return None
-    return None
